@@ -123,7 +123,7 @@ def generate(seed, tier):
                         row[index] = ["date", "2000-02-29 00:00:00"]
     return {"io": simfs.IoConfig.draw(swarm), "producer": "peer", "sheets": sheets, "sheet": sheet,
             "via": swarm.choice(["direct", "reader"]), "stored": swarm.random() < 0.3, "date1904": date1904,
-            "other_date_system_first": swarm.random() < 0.3,
+            "other_date_system_first": swarm.random() < 0.3, "other_at_same_path": swarm.random() < 0.5,
             # sheets the user interface does not show are sheets all the same: sheet k counts every sheet
             "hidden": [[index, swarm.choice(["hidden", "veryHidden"])] for index in range(len(sheets)) if swarm.random() < 0.2]}
 
@@ -213,10 +213,12 @@ def execute(scenario):
         # a workbook using the other date system but the very same serial numbers is read first in this process
         other = xlsx.encode([[[peer_cell(cell, date1904) for cell in row] for row in table] for table in sheets],
                             date1904=not date1904)
-        fs.store("other.xlsx", other)
+        other_path = "book.xlsx" if scenario.get("other_at_same_path") else "other.xlsx"
+        fs.store(other_path, other)
         with simfs.Seams(fs):
             for number in range(1, len(sheets) + 1):
-                lib.call(lambda: list(rowio.excel_rows("other.xlsx", number)))
+                lib.call(lambda: list(rowio.excel_rows(other_path, number)))
+        fs.store("book.xlsx", data)
         result.probe("other-date-system-read-first")
     if date1904:
         result.probe("date-system-1904")
